@@ -8,26 +8,29 @@ Tpl(len, elevs, heads, cs) == [len |-> len, elevs |-> elevs, heads |-> heads, ca
 
 \* 2 elevation points, no headings, no catenary
 T1 == Tpl(8,   << <<0, 10>>, <<8, 12>> >>, <<>>, <<>>)
-\* 3 elevation points, 2 headings 350 -> 10 (wrap, +20 deg over 16 m: above the knee), one catenary section inside
+\* 3 elevation points, 2 headings 350 -> 10 (clockwise through north, raw -340: 20 deg over 16 m, above the knee), one catenary section inside
 T2 == Tpl(16,  << <<0, 5>>, <<4, 9>>, <<16, 7>> >>, << <<0, 350>>, <<16, 10>> >>, << <<2, 10, 4096>> >>)
-\* 4 elevation points, 3 headings 359 -> 1 -> 0 (wrap +2 deg over 32 m: above; -1 deg over 32 m: below), two touching sections
+\* 4 elevation points, 3 headings 359 -> 1 -> 0 (raw -358: 2 deg over 32 m, above; -1 deg over 32 m: below), two touching sections
 T3 == Tpl(64,  << <<0, 0>>, <<8, -3>>, <<32, -3>>, <<64, 1>> >>, << <<0, 359>>, <<32, 1>>, <<64, 0>> >>,
                << <<0, 16, 1024>>, <<16, 64, 2048>> >>)
-\* flat, 2 headings 1 -> 359 (wrap the other way, -2 deg over 128 m: below the knee)
+\* flat, 2 headings 1 -> 359 (counter-clockwise through north, raw +358: 2 deg over 128 m, below the knee)
 T4 == Tpl(128, << <<0, 7>>, <<128, 7>> >>, << <<0, 1>>, <<128, 359>> >>, <<>>)
 \* half turns both ways (|wrap| = 180), only for trains without quadratic term
 T5 == Tpl(32,  << <<0, 3>>, <<32, 1>> >>, << <<0, 90>>, <<16, 270>>, <<32, 90>> >>, <<>>)
 \* constant heading (curvature 0), zero-length catenary section at the end, descending
 T6 == Tpl(8,   << <<0, 9>>, <<2, 4>>, <<8, 0>> >>, << <<0, 45>>, <<8, 45>> >>, << <<8, 8, 0>> >>)
-\* exactly below / above the knee by one unit of E: 762*1 vs 25*31 = 775 (below), 25*30 = 750 (above)
+\* just below / above the knee: 762*1 vs 25*31 = 775 (below), 25*30 = 750 (above)
 T7 == Tpl(61,  << <<0, 0>>, <<61, 61>> >>, << <<0, 10>>, <<31, 11>>, <<61, 10>> >>, << <<0, 61, 1>> >>)
 
 QTemplates == {T1, T2, T3, T4, T6}
+MTemplates == {T1, T2, T6}
+PTemplates == {T2}                  \* fault model (bin/selftest): the pinned wrap must break A_CurveCoeff on 350 -> 10
 TTemplates == {T1, T2, T3, T4, T5, T6, T7}
 
 Lin  == [c0 |-> 1, c1 |-> 2, g16 |-> 0]
 Quad == [c0 |-> 2, c1 |-> 1, g16 |-> 1]
 QTrains == {Lin, Quad}
+LinOnly == {Lin}
 OneTrain == {Quad}
 Chain == {"chain"}
 Both == {"chain", "merge"}
